@@ -63,10 +63,16 @@ def pairs(d):
     instS = {"a": 1.5, "b": {"c": None}, "r": [], "z": {}}
     E1 = dict(member({"type": "integer"}, {"type": "string"}, {"type": "string"}, instS), share=True)
     E2 = dict(member({"type": "string"}, {"type": "integer"}, {"type": "integer"}, instS), share=True)
+    # the same remote URL retrieved through each member's OWN handler, which serves that member's own document
+    def remote_member(doc, inst):
+        return dict(name="own-handler", schema={"properties": {"r": {"$ref": scen.REMOTE + "#/definitions/x"}, "q": {"type": "null"}}},
+                    store={}, remote={scen.REMOTE: {"definitions": {"x": doc}}}, instances=[inst], refs=[], fmt=None)
+    H1 = remote_member({"type": "integer"}, {"r": "s", "q": 1})
+    H2 = remote_member({"type": "string"}, {"q": 2, "r": 1})
     M1 = meta_member("meta-override-1", {"type": "string"}, {"m": 3, "n": "x"})
     M2 = meta_member("meta-override-2", {"type": "null"}, {"m": "x", "n": None})
     M3 = meta_member("meta-default", None, {"m": "x", "n": -1})
-    return [[A, B], [B, A], [A3, B3, C], [rec, rec2], [A, rec], [D1, D2], [M1, M3], [M3, M2], [M2, M1], [E1, E2]]
+    return [[A, B], [B, A], [A3, B3, C], [rec, rec2], [A, rec], [D1, D2], [M1, M3], [M3, M2], [M2, M1], [E1, E2], [H1, H2]]
 
 
 def instances_for(grp):
@@ -105,6 +111,23 @@ def checker_for(js, kind):
     return fc
 
 
+class MeetingHandler(object):
+    """a retrieval handler serving this member's own documents.  When a meeting point is set (threaded rounds), every
+    retrieval waits there briefly for the other members' retrievals: the handlers of all members are then inside their
+    retrievals of the same URL at the same time, each for its own resolver"""
+    def __init__(self, docs):
+        self.docs, self.meet, self.calls = docs, None, 0
+
+    def __call__(self, uri):
+        self.calls += 1
+        if self.meet is not None:
+            try:
+                self.meet.wait()
+            except threading.BrokenBarrierError:
+                pass
+        return copy.deepcopy(self.docs[uri])
+
+
 def build(d, m, real=False):
     js = import_lib()
     cls = draft_classes()[d]
@@ -113,7 +136,13 @@ def build(d, m, real=False):
         return cls(m["schema"], format_checker=checker_for(js, m.get("fmt"))), None
     R = tracing.make_tracing_resolver_class()
     schema = copy.deepcopy(m["schema"])
-    res = R.from_schema(schema, id_of=cls.ID_OF, store=copy.deepcopy(m["store"]))
+    kw = {}
+    if m.get("remote"):
+        h = MeetingHandler(copy.deepcopy(m["remote"]))
+        kw["handlers"] = {"http": h, "https": h}
+    res = R.from_schema(schema, id_of=cls.ID_OF, store=copy.deepcopy(m["store"]), **kw)
+    if m.get("remote"):
+        res.meeting_handler = h
     return cls(schema, resolver=res, format_checker=checker_for(js, m.get("fmt"))), res
 
 
@@ -221,7 +250,7 @@ def main(args):
     ck.rule = ("groups of 2-3 validator objects per draft whose schemas collide on every key a shared cache could use (same base "
                "URI, same $ref strings designating different definitions, same nested id and relative reference, same "
                "remote URL served by different stores, same pattern, same format name with different checker functions, "
-               "recursive schemas, the draft's metaschema URL overridden differently in each member's store, two validators given the very same instance object); each member's errors when running alone are computed in a freshly spawned process of its own; the script of each member's iteration is measured on the real code, TLC enumerates ALL "
+               "recursive schemas, the draft's metaschema URL overridden differently in each member's store, two validators given the very same instance object, two validators retrieving the same remote URL through their own handlers which serve different documents and, in the threaded rounds, are inside their retrievals at the same time); each member's errors when running alone are computed in a freshly spawned process of its own; the script of each member's iteration is measured on the real code, TLC enumerates ALL "
                "interleavings of next() steps (MC_Interleave: invariant Independent; negative control SharedStack must be "
                "violated), and every maximal schedule is replayed on real iterators and compared with the solo runs; plus "
                "event-level thread schedules: TLC enumerates every schedule of resolver events with <= %d preemptions (MC_Sched) and each is replayed on real threads whose resolvers block before every event until granted the turn; and unscheduled threaded runs (1 microsecond switch interval) compared with the solo runs." % (1 if quick else 2) + " Non-trivial: a "
@@ -296,7 +325,7 @@ def main(args):
     # ---- threads under a deterministic scheduler: TLC enumerates the event-level schedules with a bounded number of
     # preemptions (MC_Sched); each member runs in a real thread whose resolver blocks before every event (push / pop /
     # resolve) until the schedule grants it the turn
-    two = [(gi, m) for gi, m in enumerate(meta) if len(m[1]) == 2 and not any(x.get("default") for x in m[1])]
+    two = [(gi, m) for gi, m in enumerate(meta) if len(m[1]) == 2 and not any(x.get("default") or x.get("remote") for x in m[1])]
     sgroups = [groups[gi] for gi, _ in two]
     wd = tlc.workdir("c18s")
     sf = os.path.join(wd, "groups.json")
@@ -330,6 +359,10 @@ def main(args):
                 res = [None] * len(grp)
                 barrier = threading.Barrier(len(grp))
                 insts = instances_for(grp)
+                if all(m.get("remote") for m in grp):
+                    meet = threading.Barrier(len(grp), timeout=0.3)
+                    for v_, r_ in vals:
+                        r_.meeting_handler.meet = meet
 
                 def work(i):
                     try:
